@@ -142,6 +142,46 @@ func ruleNIL4(w *World) []Ob {
 			l.bad(fid, construct, pos, "the compiler cannot prove this index in range and no recognised guard (range over the same slice, len test, make(len)) or named invariant covers it: possible run-time panic", "bce")
 		}
 	}
+	// results of container/list navigation are nil on an empty list / at the ends
+	eachModFunc(w, func(p *Prog, fn *ssa.Function) {
+		if scopeOf(p, fn) == "cli" {
+			return
+		}
+		l.cfg = p.Cfg.Name
+		nc := newNilCtx(p)
+		num := numbered{}
+		allInstrs(fn, func(in ssa.Instruction) {
+			c, ok := in.(*ssa.Call)
+			if !ok {
+				return
+			}
+			switch calleeFullName(c.Common()) {
+			case "(*container/list.List).Back", "(*container/list.List).Front", "(*container/list.Element).Next", "(*container/list.Element).Prev":
+			default:
+				return
+			}
+			construct := num.name("possibly nil " + calleeString(c.Common()))
+			var bad []string
+			for _, r := range *c.Referrers() {
+				switch x := r.(type) {
+				case *ssa.FieldAddr:
+					if !guardedNonNil(c, x) {
+						bad = append(bad, p.InstrPos(x))
+					}
+				case *ssa.Field:
+					if !guardedNonNil(c, x) {
+						bad = append(bad, p.InstrPos(x))
+					}
+				}
+			}
+			_ = nc
+			if len(bad) > 0 {
+				l.bad(p.FuncID(fn), construct, p.InstrPos(c), "the element returned by the list (nil when the list is empty) is dereferenced at "+strings.Join(bad, ", ")+" without a nil test", "listnil")
+			} else {
+				l.ok(p.FuncID(fn), construct, p.InstrPos(c), "dereferenced only after a nil test (or only handed to list methods)", true, "listnil")
+			}
+		})
+	})
 	// type assertions and divisions (SSA)
 	eachModFunc(w, func(p *Prog, fn *ssa.Function) {
 		if scopeOf(p, fn) == "cli" {
